@@ -614,16 +614,23 @@ func (vfs *OrefaFS) OpenFile(name string, flag int, perm fs.FileMode) (avfs.File
 
 		avfs.VerifBeforeLock(&vfs.mu, true)
 		vfs.mu.Lock()
-		defer vfs.mu.Unlock()
 
-		// test for race conditions when opening file in exclusive mode.
-		_, childOk = vfs.nodes[absPath]
-		if childOk && om&avfs.OpenCreateExcl != 0 {
-			return (*OrefaFile)(nil), &fs.PathError{Op: op, Path: name, Err: vfs.err.FileExists}
+		// The file may have been created, or its directory removed, since the first lookup.
+		child, childOk = vfs.nodes[absPath]
+		if !childOk {
+			if vfs.nodes[dirName] != parent {
+				vfs.mu.Unlock()
+
+				return (*OrefaFile)(nil), &fs.PathError{Op: op, Path: name, Err: vfs.err.NoSuchDir}
+			}
+
+			child = vfs.createFile(parent, absPath, fileName, perm)
 		}
 
-		child = vfs.createFile(parent, absPath, fileName, perm)
-	} else {
+		vfs.mu.Unlock()
+	}
+
+	if childOk {
 		if om&avfs.OpenCreateExcl != 0 {
 			return (*OrefaFile)(nil), &fs.PathError{Op: op, Path: name, Err: vfs.err.FileExists}
 		}
